@@ -557,5 +557,13 @@ def r15_14(ctx):
         raise AnalysisError(f"only {n} file-name defaultings found in run_server")
 
 
+def r15_15(ctx):
+    """R15.15 the reply can always be built: get_json_values() - called outside any handler in the request loop - converts a number only
+    from a non-empty text and emits null for a number option without a value (C06 R06.13)."""
+    from . import c06
+    from .common import delegate
+    delegate(ctx, c06.r06_13, lambda c: True)
+
+
 def rules():
-    return [("R15.14", r15_14, 2), ("R15.13", r15_13, 1), ("R15.12", r15_12, 8), ("R15.11", r15_11, 1), ("R15.10", r15_10, 2), ("R15.9", r15_9, 4), ("R15.7", r15_7, 1), ("R15.1", r15_1, 4), ("R15.2", r15_2, 2), ("R15.3", r15_3, 3), ("R15.4", r15_4, 2), ("R15.5", r15_5, 3), ("R15.6", r15_6, 2), ("R15.8", r15_8, 6)]
+    return [("R15.15", r15_15, 3), ("R15.14", r15_14, 2), ("R15.13", r15_13, 1), ("R15.12", r15_12, 8), ("R15.11", r15_11, 1), ("R15.10", r15_10, 2), ("R15.9", r15_9, 4), ("R15.7", r15_7, 1), ("R15.1", r15_1, 4), ("R15.2", r15_2, 2), ("R15.3", r15_3, 3), ("R15.4", r15_4, 2), ("R15.5", r15_5, 3), ("R15.6", r15_6, 2), ("R15.8", r15_8, 6)]
